@@ -325,7 +325,9 @@ func runC15(rc *RC) {
 			}
 			werrA = small(payload[:lagS1])
 			part1Done = true
-			simrt.WaitUntil("writer-a:reader-caught-up", func() bool { return len(rdB.got) >= lagS1-2 || rdB.done || acceptErr != nil || werrA != nil || phase >= 2 })
+			simrt.WaitUntil("writer-a:reader-caught-up", func() bool {
+				return len(rdB.got) >= lagS1-2 || rdB.done || acceptErr != nil || werrA != nil || phase >= 2
+			})
 			if werrA == nil {
 				werrA = small(payload[lagS1:])
 			}
